@@ -170,23 +170,20 @@ Proof.
   destruct (Z.eqb_spec (rc a) 0) as [e|]; auto. exfalso.
   assert (Hm : rf_m a = 0) by (unfold rf_m; rewrite e; destruct (rs a); reflexivity).
   rewrite Hm in H. rewrite Z.geb_leb in H. destruct (Z.leb_spec 0 (rexp a)).
-  - cbn in H. apply Z.compare_eq in H. lia.
-  - cbn in H. apply Z.compare_eq in H. pose proof (pow2_pos' (- rexp a) ltac:(lia)). nia.
+  - apply Z.compare_eq in H. lia.
+  - apply Z.compare_eq in H. pose proof (pow2_pos' (- rexp a) ltac:(lia)). nia.
 Qed.
 
 Lemma num_compare_eq : forall x y, num_ok x -> num_ok y -> num_compare x y = Some Eq ->
   atom_of_num x = atom_of_num y.
 Proof.
-  intros [[a|s|s]|n d] [[b|t|t]|m e] Hx Hy H; cbn in H; try discriminate; cbn; try reflexivity.
+  intros x y Hx Hy H.
+  destruct x as [[a|s|s]|n d], y as [[b|t|t]|m e]; cbn in H; try discriminate; cbn; try reflexivity;
+    try (destruct s; discriminate); try (destruct t; discriminate).
   - inversion H as [E]. rewrite (rf_compare_eq_zero _ _ E). reflexivity.
-  - destruct t; discriminate.
   - apply num_ok_NQ in Hy. inversion H as [E]. rewrite (rf_cmp_frac_eq_nz a m e); tauto.
-  - destruct s; discriminate.
-  - destruct (eqb s t); [reflexivity|destruct s; discriminate].
-  - destruct s; discriminate.
   - apply num_ok_NQ in Hx. inversion H as [E].
     destruct (rf_cmp_frac b n d) eqn:E2; try discriminate. rewrite (rf_cmp_frac_eq_nz b n d); tauto.
-  - destruct t; discriminate.
 Qed.
 
 Lemma num_compare_zero : forall x y, atom_of_num x = AZero -> atom_of_num y = AZero -> num_compare x y = Some Eq.
@@ -194,6 +191,13 @@ Proof.
   intros [[a|s|s]|n d] [[b|t|t]|m e] Hx Hy; cbn in *; try discriminate.
   destruct (is_zero a) eqn:Za; [|discriminate]. destruct (is_zero b) eqn:Zb; [|discriminate].
   unfold rf_compare. unfold is_zero in *. rewrite Za, Zb. reflexivity.
+Qed.
+
+Lemma atom_special x :
+  (num_isnan x = true <-> atom_of_num x = ANaN) /\ (num_isinf x = true <-> atom_of_num x = AInf).
+Proof.
+  destruct x as [[r|s|s]|n d]; cbn; repeat split; try discriminate; try reflexivity; try congruence;
+    destruct (is_zero r); discriminate.
 Qed.
 
 (* ---------------------------------------------------------------- the instance *)
@@ -209,38 +213,33 @@ Proof.
   - (* unary *)
     intros o C x r a H Hm. cbn in H. apply ok1_inv in H. destruct H as [Hx H].
     destruct o; try discriminate; cbn [unop_prov] in H; cbn [op1_exact]; try apply R_prov_top.
-    + eapply round_prov_cls; eauto; [apply num_ok_neg; auto|]. rewrite atom_num_neg, lift1_id. exact Hm.
-    + eapply round_prov_cls; eauto; [apply num_abs_ok; auto|]. rewrite atom_num_abs, lift1_id. exact Hm.
-    + eapply round_prov_cls; eauto. rewrite lift1_id. exact Hm.
+    + eapply round_prov_cls; [| exact H |]; [apply num_ok_neg; exact Hx|]. rewrite atom_num_neg, lift1_id. exact Hm.
+    + eapply round_prov_cls; [| exact H |]; [apply num_abs_ok; exact Hx|]. rewrite atom_num_abs, lift1_id. exact Hm.
+    + eapply round_prov_cls; [| exact H |]; [exact Hx|]. rewrite lift1_id. exact Hm.
     + destruct C; try (unfold ctx_round_exact_prov in H; apply bind_ok in H; destruct H as (y & Hy & E);
         assert (r = y) by (destruct (num_isnan x); [inversion E; auto|];
                            destruct (num_compare y x) as [[]|]; inversion E; auto); subst y;
-        eapply round_prov_cls; eauto; rewrite lift1_id; exact Hm).
-      inversion H; subst. unfold R_prov. cbn. rewrite lift1_id. exact Hm.
+        eapply round_prov_cls; [| exact Hy |]; [exact Hx|]; rewrite lift1_id; exact Hm).
+      inversion H; subst. unfold R_prov. cbn [is_real]. rewrite lift1_id. exact Hm.
   - (* binary *)
     intros o C x y r a b H Hma Hmb. cbn in H. apply ok1_inv in H. destruct H as [Hx H].
     apply ok1_inv in H. destruct H as [Hy H].
     destruct o; try discriminate; cbn [binop_prov] in H; cbn [op2_exact]; try apply R_prov_top.
-    + eapply round_prov_cls; eauto; [apply num_add_ok; auto|]. eapply lift2_sound; eauto. apply atom_num_add; auto.
-    + eapply round_prov_cls; eauto; [apply num_sub_ok; auto|]. eapply lift2_sound; eauto. apply atom_num_sub; auto.
-    + eapply round_prov_cls; eauto; [apply num_mul_ok; auto|]. eapply lift2_sound; eauto. apply atom_num_mul; auto.
-    + eapply round_prov_cls; eauto; [apply num_div_ok; auto|]. eapply lift2_sound; eauto. apply atom_num_div; auto.
+    + eapply round_prov_cls; [| exact H |]; [apply num_add_ok; assumption|]. eapply lift2_sound; eauto. apply atom_num_add; auto.
+    + eapply round_prov_cls; [| exact H |]; [apply num_sub_ok; assumption|]. eapply lift2_sound; eauto. apply atom_num_sub; auto.
+    + eapply round_prov_cls; [| exact H |]; [apply num_mul_ok; assumption|]. eapply lift2_sound; eauto. apply atom_num_mul; auto.
+    + eapply round_prov_cls; [| exact H |]; [apply num_div_ok; assumption|]. eapply lift2_sound; eauto. apply atom_num_div; auto.
   - (* ternary *)
     intros o C x y z r a b c H Hma Hmb Hmc. cbn in H. apply ok1_inv in H. destruct H as [Hx H].
     apply ok1_inv in H. destruct H as [Hy H]. apply ok1_inv in H. destruct H as [Hz H].
     destruct o; try discriminate; cbn [ternop_prov] in H; cbn [op3_exact].
-    eapply round_prov_cls; eauto; [apply num_add_ok; auto; apply num_mul_ok; auto|].
+    eapply round_prov_cls; [| exact H |]; [apply num_add_ok; try assumption; apply num_mul_ok; assumption|].
     eapply lift3_sound; eauto. unfold a_fma. eapply lift1_sound; [apply atom_num_mul; auto|].
     apply atom_num_add; auto. apply num_mul_ok; auto.
   - intros x. cbn. apply (proj1 (atom_special x)).
   - intros x. cbn. apply (proj2 (atom_special x)).
-  - intros x. cbn. destruct (atom_special x) as [Hn Hi].
-    destruct (num_isnan x) eqn:E1; [apply Hn in E1; rewrite E1; cbn; split; discriminate|].
-    destruct (num_isinf x) eqn:E2; [apply Hi in E2; rewrite E2; cbn; split; discriminate|].
-    cbn. split; auto. intros _.
-    destruct (atom_of_num x) eqn:Ea; try reflexivity.
-    + assert (num_isnan x = true) by (apply Hn; reflexivity). congruence.
-    + assert (num_isinf x = true) by (apply Hi; reflexivity). congruence.
+  - intros [[r|s|s]|n d]; cbn; try (split; discriminate); try (split; reflexivity).
+    destruct (is_zero r); split; reflexivity.
   - intros x H. cbn in H. discriminate.
   - intros x y c H. cbn in H. destruct (num_okb x && num_okb y); [|discriminate]. eapply num_compare_nan; eauto.
   - intros x y H. cbn in H. destruct (num_okb x) eqn:Ex, (num_okb y) eqn:Ey; cbn in H; try discriminate.
